@@ -4,4 +4,19 @@ OBLIGATIONS = [
      bound='all int32 min<=max with max-min<2^31-1, all orig in [min,max], all 32-bit pred; 1 component',
      covers='PredictionSchemeWrapTransformBase::InitCorrectionBounds/ClampPredictedValue, EncodingTransform::ComputeCorrection, DecodingTransform::ComputeOriginalValue'),
 ]
+for q, tier in [(2, 'quick'), (3, 'quick'), (8, 'quick'), (11, 'quick')] + [(x, 'thorough') for x in (4, 5, 6, 7, 9, 10, 12, 13, 14, 15, 16, 17, 18, 19, 20, 21, 22, 23, 24, 25, 26, 27, 28, 29, 30)]:
+    OBLIGATIONS.append(Ob('C16.oct_canon_q%d' % q, 'C16/oct.cc', 'h_oct_canon', tier=tier, unwind=3, defines={'QC': q},
+        bound='q=%d: all canonical (orig,pred) in [0,2^q-2]^4' % q,
+        covers='PredictionSchemeNormalOctahedronCanonicalized{Encoding,Decoding}Transform::ComputeCorrection/ComputeOriginalValue, GetRotationCount/RotatePoint/IsInBottomLeft, OctahedronToolBox::IsInDiamond/InvertDiamond/ModMax/MakePositive'))
+for q, tier in [(8, 'quick')] + [(x, 'thorough') for x in (2, 3, 5, 11, 16, 24, 30)]:
+    OBLIGATIONS.append(Ob('C16.oct_plain_q%d' % q, 'C16/oct.cc', 'h_oct_plain', tier=tier, unwind=3, defines={'QC': q},
+        bound='q=%d: canonical orig, any pred in the square (legacy non-canonicalized transform)' % q,
+        covers='PredictionSchemeNormalOctahedron{Encoding,Decoding}Transform::ComputeCorrection/ComputeOriginalValue'))
+for q, tier in [(x, 'thorough') for x in (2, 3, 8, 16)]:
+    OBLIGATIONS.append(Ob('C16.oct_canon_anypred_q%d' % q, 'C16/oct.cc', 'h_oct_canon_anypred', tier=tier, unwind=3, defines={'QC': q},
+        bound='q=%d: canonical orig, ANY pred in the square (not necessarily canonical)' % q,
+        covers='as C16.oct_canon'))
+for nc in (2, 3):
+    OBLIGATIONS.append(Ob('C16.wrap_%dcomp' % nc, 'C16/wrap.cc', 'h_wrap', tier='thorough', unwind=5, defines={'NCOMP': nc},
+        bound='as C16.wrap with %d components' % nc, covers='as C16.wrap'))
 META = {}
